@@ -794,7 +794,10 @@ func ruleTanIndexState(e *Engine, r *Report) {
 		}
 		n++
 		st := in.(*ssa.Store)
-		dep := e.dependsOn(st.Val, func(v ssa.Value) bool { p, ok := v.(*ssa.Parameter); return ok && p.Parent() == ui && (p.Name() == "pos" || p.Name() == "logNum") }, 0)
+		dep := e.dependsOn(st.Val, func(v ssa.Value) bool {
+			p, ok := v.(*ssa.Parameter)
+			return ok && p.Parent() == ui && (p.Name() == "pos" || p.Name() == "logNum")
+		}, 0)
 		r.check(dep, "MPT-tan-index-state", "nodeIndex.state store #"+itoa(n)+" records the written position", e.ipos(in),
 			"the pointer is the position just written", "the state pointer no longer derives from the position/file just written")
 	})
@@ -1067,4 +1070,203 @@ func ruleShrunkPredicate(e *Engine, r *Report) {
 				reqBool("", fieldV(dummy), true)))
 	})
 	r.floor("GD-shrunk-pred", n, 2)
+}
+
+// ruleSnapshotWriterClose (C14, C16): the close sequence of the snapshot file
+// writer (flush, header, fsync, close, directory sync) and the accessors
+// that are only valid after it.
+func ruleSnapshotWriterClose(e *Engine, r *Report) {
+	// ---- writer Close order
+	if wc := r.need("(*internal/rsm.SnapshotWriter).Close"); wc != nil {
+		steps := []func(s ssa.CallInstruction) bool{
+			func(s ssa.CallInstruction) bool { return e.CallsTo(s, e.Func("(*internal/rsm.SnapshotWriter).flush")) },
+			func(s ssa.CallInstruction) bool {
+				return e.CallsTo(s, e.Func("(*internal/rsm.SnapshotWriter).saveHeader"))
+			},
+			func(s ssa.CallInstruction) bool { return s.Common().IsInvoke() && s.Common().Method.Name() == "Sync" },
+			func(s ssa.CallInstruction) bool { return s.Common().IsInvoke() && s.Common().Method.Name() == "Close" },
+			func(s ssa.CallInstruction) bool { return e.CallsTo(s, e.Func("internal/fileutil.SyncDir")) },
+		}
+		names := []string{"flush", "saveHeader", "file.Sync", "file.Close", "SyncDir"}
+		var at []ssa.Instruction
+		for i, st := range steps {
+			var found ssa.Instruction
+			forEachCall(wc, func(s ssa.CallInstruction) {
+				if found == nil && st(s) {
+					found = s.(ssa.Instruction)
+				}
+			})
+			r.check(found != nil, "MPT-writer-close", "SnapshotWriter.Close performs "+names[i], e.pos(wc.Pos()), "present", "SnapshotWriter.Close no longer performs "+names[i])
+			at = append(at, found)
+		}
+		for i := 1; i < len(at); i++ {
+			if at[i] == nil || at[i-1] == nil {
+				continue
+			}
+			prev := at[i-1]
+			o, _ := e.alwaysPrecededBy(at[i], func(in ssa.Instruction) bool { return in == prev }, 0)
+			r.check(o, "MPT-writer-close", names[i]+" after "+names[i-1]+" in SnapshotWriter.Close", e.ipos(at[i]),
+				"payload flushed, header written, file synced and closed, directory synced - in this order", "the close sequence of the snapshot file writer is out of order")
+		}
+		// every step on every path
+		for i, a := range at {
+			if a == nil {
+				continue
+			}
+			x := a
+			res := e.findPath(wc, nil, isReturn, func(in ssa.Instruction) bool { return in == x }, nil)
+			r.check(!res.Found, "MPT-writer-close", names[i]+" on every path of SnapshotWriter.Close", e.ipos(a), "unconditional", names[i]+" can be skipped on some path of SnapshotWriter.Close")
+		}
+		closed := e.Field("internal/rsm", "SnapshotWriter", "closed")
+		for _, gn := range []string{"GetPayloadSize", "GetPayloadChecksum"} {
+			g := r.need("(*internal/rsm.SnapshotWriter)." + gn)
+			if g == nil {
+				continue
+			}
+			okg := true
+			forEachInstr(g, func(in ssa.Instruction) {
+				if _, ok := in.(*ssa.Return); ok {
+					if gg, _ := e.guardedOnAllPaths(in, reqBool("", fieldV(closed), true)); !gg {
+						okg = false
+					}
+				}
+			})
+			r.check(okg, "MPT-writer-close", gn+" only after Close", e.pos(g.Pos()), "size and checksum are final", gn+" can be read before the writer was closed")
+		}
+	}
+}
+
+// ruleRestoreRebase (C02, C19): see the comment in the body.
+func ruleRestoreRebase(e *Engine, r *Report) {
+	imT := e.Named("internal/raft", "inMemory")
+	if imT == nil {
+		r.undecided("ANCHOR", "internal/raft.inMemory", "type not found")
+		return
+	}
+	st := imT.Underlying().(*types.Struct)
+	// ---- restore rebases the in-memory log on the snapshot alone: no cursor
+	// keeps (a function of) its previous value
+	if rs := r.need("(*internal/raft.inMemory).restore"); rs != nil {
+		isOldState := func(v ssa.Value) bool {
+			f, _, ok := loadedField(v)
+			if !ok {
+				return false
+			}
+			for i := 0; i < st.NumFields(); i++ {
+				if st.Field(i) == f {
+					return true
+				}
+			}
+			return false
+		}
+		cnt := 0
+		for _, fn := range []string{"markerIndex", "savedTo", "appliedToIndex", "appliedToTerm"} {
+			fld := e.Field("internal/raft", "inMemory", fn)
+			if fld == nil {
+				continue
+			}
+			for _, w := range e.FieldWrites(fld) {
+				if w.Fn != rs || w.Val == nil {
+					continue
+				}
+				cnt++
+				fromSS := e.dependsOn(w.Val, func(v ssa.Value) bool { p, ok := v.(*ssa.Parameter); return ok && p.Parent() == rs && p.Name() != "im" }, 0)
+				r.check(fromSS && !e.dependsOn(w.Val, isOldState, 0), "DEP-restore-rebase", "inMemory."+fn+" in restore is a function of the snapshot only", e.ipos(w.Instr),
+					"the cursor is rebased on the snapshot", "restore keeps (a function of) the previous "+fn+": a stale cursor survives the rebase, e.g. entries re-appended after the snapshot are considered saved/applied")
+			}
+		}
+		r.floor("DEP-restore-rebase", cnt, 4)
+	}
+}
+
+// ruleLogReaderRebase (C09, C19): LogReader.ApplySnapshot replaces the
+// reader's window by the snapshot: whatever it (or a helper it calls)
+// stores into markerIndex/markerTerm/length is a function of the snapshot
+// only, never of the previous window. A window that keeps its old length
+// keeps answering for indexes whose entries were discarded.
+func ruleLogReaderRebase(e *Engine, r *Report) {
+	as := r.need("(*internal/logdb.LogReader).ApplySnapshot")
+	lrT := e.Named("internal/logdb", "LogReader")
+	if as == nil || lrT == nil {
+		return
+	}
+	st := lrT.Underlying().(*types.Struct)
+	window := map[*types.Var]bool{}
+	for _, n := range []string{"markerIndex", "markerTerm", "length"} {
+		f := r.needField("internal/logdb", "LogReader", n)
+		if f == nil {
+			return
+		}
+		window[f] = true
+	}
+	_ = st
+	isOld := func(v ssa.Value) bool {
+		f, _, ok := loadedField(v)
+		return ok && window[f]
+	}
+	n := 0
+	seen := map[*ssa.Function]bool{}
+	var visit func(fn *ssa.Function, depth int)
+	visit = func(fn *ssa.Function, depth int) {
+		if seen[fn] || depth > 2 {
+			return
+		}
+		seen[fn] = true
+		forEachInstr(fn, func(in ssa.Instruction) {
+			if s, ok := in.(*ssa.Store); ok {
+				if f, _, ok := fieldOfAddr(s.Addr); ok && window[f] {
+					n++
+					r.check(!e.dependsOn(s.Val, isOld, 0), "DEP-logreader-rebase", "LogReader."+f.Name()+" stored in "+fname(fn)+" on the ApplySnapshot path is a function of the snapshot only", e.ipos(in),
+						"the window is rebased on the snapshot",
+						"on the ApplySnapshot path LogReader."+f.Name()+" is computed from the previous window: after a snapshot inside the persisted range the reader keeps answering for discarded entries")
+				}
+			}
+			if c, ok := in.(*ssa.Call); ok {
+				for _, g := range e.Callees(c) {
+					if recv := g.Signature.Recv(); recv != nil && fnPkg(g) == fnPkg(as) {
+						t := recv.Type()
+						if p, isP := t.(*types.Pointer); isP {
+							t = p.Elem()
+						}
+						if types.Identical(t, lrT) {
+							visit(g, depth+1)
+						}
+					}
+				}
+			}
+		})
+	}
+	visit(as, 0)
+	r.floor("DEP-logreader-rebase", n, 3)
+}
+
+// ruleTermInMemFirst (C02, C19): the raft core answers term queries from its
+// in-memory view first (it holds the entries, the applied entry's term and
+// a pending snapshot's term, all newer than the log store); the log store
+// is consulted only when the in-memory view has no answer.
+func ruleTermInMemFirst(e *Engine, r *Report) {
+	tf := r.need("(*internal/raft.entryLog).term")
+	getTerm := r.need("(*internal/raft.inMemory).getTerm")
+	termM := e.Method("internal/raft", "ILogDB", "Term")
+	if tf == nil || getTerm == nil || termM == nil {
+		if termM == nil {
+			r.undecided("ANCHOR", "internal/raft.ILogDB.Term", "anchored method no longer resolves")
+		}
+		return
+	}
+	n := 0
+	var okOf VM = func(v ssa.Value) bool {
+		ex, ok := v.(*ssa.Extract)
+		if !ok || ex.Index != 1 {
+			return false
+		}
+		c, ok := ex.Tuple.(*ssa.Call)
+		return ok && e.CallsTo(c, getTerm)
+	}
+	for _, s := range e.MethodSitesIn(tf, termM) {
+		n++
+		r.guard("GD-term-inmem-first", "log store Term() consulted in "+fname(tf), s.(ssa.Instruction),
+			reqBool("the in-memory view has no term for the index (getTerm !ok)", okOf, false))
+	}
+	r.floor("GD-term-inmem-first", n, 1)
 }
